@@ -3,7 +3,7 @@
 // Oracle from the property statement: the lines of a file are its pieces between line feeds (a CR before the LF belongs
 // to the line end, a final piece without LF is a line, an empty final piece is not); files in the given order.
 // Grid: every file of up to 2 lines over the pool below with LF / CRLF / no final terminator (109 contents), all pairs of 21
-// representative contents, all triples of 6; every 4th content through a pipe (an input without a size); 14 lines with a byte order mark / blanks / tabs / CR / Unicode separators at their ends as first, second and both files; statements: SELECT input, SELECT COUNT(*), a join whose joined file is the grid file.
+// representative contents, all triples of 6; the command-line binary over files given in unsorted order and twice; every 4th content through a pipe (an input without a size); 14 lines with a byte order mark / blanks / tabs / CR / Unicode separators at their ends as first, second and both files; statements: SELECT input, SELECT COUNT(*), a join whose joined file is the grid file.
 include!("verif_grid_common.rs");
 
 const DEF: &str = "CREATE TABLE t(line = '(.*)', line[1] => x TEXT);";
@@ -169,6 +169,25 @@ fn verif_grid() {
         let r = run_handles(DEF, "SELECT COUNT(*) AS n FROM t", move || vec![std::fs::File::open(&a2).unwrap(), pipe_with(b"c\nd\ne"), std::fs::File::open(&c2).unwrap()], Default::default());
         let _ = (std::fs::remove_file(a), std::fs::remove_file(c));
         match r { Outcome::Lines(lines, 6) if lines == vec!["n: 6".to_owned()] => Ok(()), other => Err(format!("a file of 2 lines, a pipe of 3 and a file of 1: COUNT(*) gave {:?}", other)) }
+    });
+    // the command line: the binary reads the files it is given, in the order given, a file named twice is read twice
+    g.case("command-line-file-order", || {
+        let exe = env!("CARGO_BIN_EXE_VERIF_SCRATCH_PACKAGE");
+        let definition = write_temp("tables", DEF.as_bytes());
+        let (a, c) = (write_temp("b_second", b"a1\na2\n"), write_temp("a_first", b"c1\n"));   // (names chosen so that the given order is not the sorted one)
+        let mut result = Ok(());
+        for (files, want) in [(vec![&a, &c], vec!["a1", "a2", "c1"]), (vec![&c, &a], vec!["c1", "a1", "a2"]), (vec![&a, &c, &a], vec!["a1", "a2", "c1", "a1", "a2"]), (vec![&c, &c], vec!["c1", "c1"])] {
+            let out = std::process::Command::new(exe).arg("-d").arg(&definition).arg("-c").arg("SELECT input FROM t").arg("--format").arg("json").args(files.iter().map(|p| p.as_os_str())).output();
+            match out {
+                Ok(o) => { let text = String::from_utf8_lossy(&o.stdout).into_owned();
+                    let got: Vec<String> = text.lines().filter(|l| !l.is_empty()).map(|l| l.to_owned()).collect();
+                    let expected: Vec<String> = want.iter().map(|w| format!("{{\"input\":\"{}\"}}", w)).collect();
+                    if got != expected { result = Err(format!("sqlgrep -c 'SELECT input FROM t' over the files {:?} (holding a1 a2 / c1) printed {:?}; the lines of the files in the given order are {:?} (stderr: {})", files, got, expected, String::from_utf8_lossy(&o.stderr))); break; } }
+                Err(e) => { result = Err(format!("the binary {} could not be run: {}", exe, e)); break; }
+            }
+        }
+        for p in [&definition, &a, &c] { let _ = std::fs::remove_file(p); }
+        result
     });
     g.done();
 }
